@@ -2,7 +2,7 @@
    C07: "A scan cursor is a stable, memory-safe snapshot while the store moves under it". *)
 From Coq Require Import NArith ZArith List Bool Arith.
 From Blue Require Import Cursor.Iface Cursor.Ref Cursor.Bounds Cursor.Pruning Cursor.Spec Cursor.Proofs_Ref Cursor.Proofs_Spec
-  Snap.Model Snap.ProofsSafe Snap.ProofsLeaf Snap.ProofsGrow Snap.ProofsScan Snap.ProofsSpec Snap.ProofsStable.
+  Snap.Model Snap.ProofsSafe Snap.ProofsLeaf Snap.ProofsGrow Snap.ProofsScan Snap.ProofsSpec Snap.ProofsStable Snap.ProofsLTG.
 Import ListNotations.
 Local Open Scope N_scope.
 
@@ -68,7 +68,8 @@ Qed.
    reference cursor over `scan_spec s1 lo hi` returns: the contents the store had when the scan was
    opened (Model.scan_spec: bounds_spec lo hi (prune_spec visible_seq_no (all entries, sorted))).
    (`quietb` excludes only writes into the memtable the cursor was opened on while it is still the
-   active one: see C07_pruning_screens_late_writes and the note on what is missing for that case.)
+   active one; C07_cursor_snapshot_stable below has no such restriction, at the price of the
+   stronger, still decidable, hypotheses `open_tsb`, `held_ok`, `fuel_enoughb`.)
    The hypotheses `no_err` exclude ill-formed schedules (BadEvent); UAF / ENOENT cannot occur by
    C07_no_freed_memory_no_missing_file; `open_wfb` is the checker of the theorem above. *)
 Theorem C07_cursor_keeps_scan_open_contents : forall c seq es1 cid lo hi es2,
@@ -127,18 +128,58 @@ Theorem C07_pruning_screens_late_writes : forall fuel t l0 evs,
   grun fuel t (p_new gfix (g_new l0)) evs = gref (prune_spec t l0) (-1) evs.
 Proof. exact pruning_screens_late_writes. Qed.
 
-(* C07_cursor_snapshot_stable_partial.  The full statement
-     forall es2 (with writes into the cursor's own active memtable allowed as well),
-       cursor_trace cid .. = ref_trace (scan_list .. at scan-open) ..
-   is proved above for every event except a write into the memtable the cursor was opened on while
-   that memtable is still active.  What is missing for that case: since db4381b (F1) the single
-   PruningCursor sits ABOVE the MergingCursor, so late entries reach the merge; a MergingCursor over
-   a child whose list grows is not an exact refinement of any list (an entry inserted between the
-   merged position and that child's own position is skipped forward and met backward), so the proof
-   needs "late-tolerant" versions of the merging and pruning simulations (positions counted over
-   the entries not newer than t only).  C07_pruning_screens_late_writes is that argument for the
-   pruning cursor directly over the growing list; the lock-step runs exercise the full case
-   (cursor steps held across writes). *)
+(* THE FULL STATEMENT: the restriction `quietb` is gone.  A cursor opened after ANY history es1 and
+   held across ANY further events es2 - now including writes into the very memtable it iterates
+   while that memtable is the active one, interleaved in any way with its own calls in any order
+   and direction - returns, call by call, exactly what the reference cursor over
+   `scan_spec s1 lo hi` returns: the contents the store had when the scan was opened.  It never
+   shows a write that completed after it was opened, and it does not change between walks.
+   Hypotheses, all decidable:
+   - `open_wfb` (as above) and `open_tsb`: at scan-open the read timestamp is a sequence number
+     already handed out and nothing in the store carries a later one (the check evaluates both at
+     every scan it opens on the real store; that the read timestamp never covers a write still
+     being inserted is the visible_seq_no discipline of C06, validated here by the concurrent stage);
+   - `held_ok`: es2 does not re-open or drop this cursor, and a write batch does not name a key twice;
+   - `fuel_enoughb`: the fuel of the models' loops (the Rust loops have none) covers what the cursor
+     holds at scan-open plus what is written while it is held;
+   - `no_err`: the schedule is well-formed (no BadEvent); UAF / ENOENT cannot occur by the first theorem.
+   How: the children of the top merge are LATE-TOLERANT cursors (ProofsLTB: a BoundsCursor over a
+   skiplist iterator is NOT an exact cursor over its list once entries are inserted - an insertion
+   can carry it past a new entry, and prev() does not check the end bound - but it keeps a logical
+   position over the entries not newer than the snapshot); a merge of late-tolerant cursors is
+   late-tolerant (ProofsLTK); the PruningCursor over a late-tolerant cursor is exact (ProofsLT);
+   an insertion keeps all of it (ProofsLTS.top_refresh); the machine glue is ProofsLTG. *)
+Theorem C07_cursor_snapshot_stable : forall c seq es1 cid lo hi es2,
+  cf_iter_owns c = true -> cf_holds_ver c = true ->
+  let s1 := fst (mrun c (minit seq) es1) in
+  find_scan s1 cid = None ->
+  open_wfb c s1 lo hi = true -> open_tsb s1 = true ->
+  forallb (held_ok cid) es2 = true -> fuel_enoughb c s1 es2 = true ->
+  Forall no_err (snd (mrun c s1 (EOpen cid lo hi :: es2))) ->
+  cursor_trace cid (EOpen cid lo hi :: es2) (snd (mrun c s1 (EOpen cid lo hi :: es2))) =
+  ref_trace (scan_spec s1 lo hi) (-1) cid es2.
+Proof.
+  intros c seq es1 cid lo hi es2 Hio Hhv s1 Hfs Hwfb Htsb Hok Hfb Hne.
+  apply snapshot_stable; auto. exact (proj2 (run_safe c Hio Hhv es1 (minit seq) (init_inv seq))).
+Qed.
+
+(* non-vacuity: the cursor of ex_stable, now with writes landing in the memtable it iterates while
+   it is held: a new key before its position, a newer version and a tombstone of keys it has yet to
+   return, between calls in both directions; none of them shows *)
+Definition ex_cfg2 : cfg := mkCfg true true false 2000.
+Definition ex_es3 : list event :=
+  [EStep 1 ONext; EWrite [([96], Some [7]); ([99], None)]; EStep 1 ONext; EWrite [([98], Some [8]); ([97], None)];
+   EStep 1 ONext; EStep 1 OPrev; EWrite [([100], Some [5])]; EStep 1 OPrev; EStep 1 OPrev; EStep 1 (OSeek [98]); EStep 1 OLast; EStep 1 OPrev].
+Example ex_stable_under_writes :
+  let s1 := fst (mrun ex_cfg2 (minit 2) ex_es1) in
+  find_scan s1 1 = None /\ open_wfb ex_cfg2 s1 Unbounded Unbounded = true /\ open_tsb s1 = true /\
+  forallb (held_ok 1) ex_es3 = true /\ fuel_enoughb ex_cfg2 s1 ex_es3 = true /\ quietb 1 true ex_es3 = false /\
+  scan_spec s1 Unbounded Unbounded = [mkE [97] 3 (Some [1]); mkE [99] 6 (Some [3])] /\
+  cursor_trace 1 (EOpen 1 Unbounded Unbounded :: ex_es3) (snd (mrun ex_cfg2 s1 (EOpen 1 Unbounded Unbounded :: ex_es3))) =
+    [OObs (Some (mkE [97] 3 (Some [1])), None); OObs (Some (mkE [99] 6 (Some [3])), None); OObs (None, None);
+     OObs (Some (mkE [99] 6 (Some [3])), None); OObs (Some (mkE [97] 3 (Some [1])), None); OObs (None, None);
+     OObs (Some (mkE [99] 6 (Some [3])), None); OObs (None, None); OObs (Some (mkE [99] 6 (Some [3])), None)].
+Proof. vm_compute. repeat split. Qed.
 
 (* ---- the two repairs are necessary: each pre-repair rule is refuted by a concrete schedule *)
 Definition ex_uaf : list event :=
